@@ -90,5 +90,6 @@ func (x *executor) floatFromBits(b *T, w int) *T {
 	if c.bv {
 		return b
 	}
-	panic(unsupported("Float*frombits in int mode (use mode bv)"))
+	// int mode: the bit pattern of a non-negative integer below 2^w (exact conversion)
+	return app(fmt.Sprintf("(_ int2bv %d)", w), fmt.Sprintf("(_ BitVec %d)", w), b)
 }
